@@ -54,27 +54,43 @@ func runC33(c *Ctx) {
 	c.Check(okNeg, pkg+".versionIsValid#is-not-epoch", vv.Pos(), "!matchEpoch(a)", "versionIsValid is no longer exactly !matchEpoch(a)")
 	// every slice of va/vb is bounded by a LastIndexByte(v, '-') result
 	nSl := 0
-	for _, b := range vc.Blocks {
-		for _, in := range b.Instrs {
-			sl, ok := in.(*ssa.Slice)
-			if !ok {
-				continue
+	// the split may be done by a private helper called once per operand (splitRevision(v))
+	type scanFn struct {
+		fn    *ssa.Function
+		times int
+	}
+	scan := []scanFn{{vc, 1}}
+	for _, h := range P.HelpersOf(vc) {
+		if obj, ok := h.Object().(*types.Func); ok {
+			if k := len(CallSites(vc, obj)); k > 0 {
+				scan = append(scan, scanFn{h, k})
 			}
-			if bt, isB := sl.X.Type().Underlying().(*types.Basic); !isB || bt.Info()&types.IsString == 0 {
-				continue // the []any of fmt.Errorf
+		}
+	}
+	for _, sf := range scan {
+		for _, b := range sf.fn.Blocks {
+			for _, in := range b.Instrs {
+				sl, ok := in.(*ssa.Slice)
+				if !ok {
+					continue
+				}
+				if bt, isB := sl.X.Type().Underlying().(*types.Basic); !isB || bt.Info()&types.IsString == 0 {
+					continue // the []any of fmt.Errorf
+				}
+				nSl += sf.times
+				okSrc := func(v ssa.Value) bool {
+					return v == nil || DependsOn(v, func(x ssa.Value) bool {
+						cc, _, ok := CallResult(x)
+						if !ok || !ToFn(lastIdx)(cc) {
+							return false
+						}
+						k, isC := ConstInt(cc.Common().Args[1])
+						return isC && k == '-'
+					})
+				}
+				c.touch(sf.fn)
+				c.Check(okSrc(sl.Low) && okSrc(sl.High), fmt.Sprintf("%s.VersionCompare#split-at-last-hyphen#%d", pkg, nSl), sl.Pos(), "split at strings.LastIndexByte(v, '-')", "the version is not split at the LAST hyphen (strings.LastIndexByte(v, '-')): with several hyphens the revision is taken from the wrong place and e.g. 2.60-1-1 sorts before 2.60-2")
 			}
-			nSl++
-			okSrc := func(v ssa.Value) bool {
-				return v == nil || DependsOn(v, func(x ssa.Value) bool {
-					cc, _, ok := CallResult(x)
-					if !ok || !ToFn(lastIdx)(cc) {
-						return false
-					}
-					k, isC := ConstInt(cc.Common().Args[1])
-					return isC && k == '-'
-				})
-			}
-			c.Check(okSrc(sl.Low) && okSrc(sl.High), fmt.Sprintf("%s.VersionCompare#split-at-last-hyphen#%d", pkg, nSl), sl.Pos(), "split at strings.LastIndexByte(v, '-')", "the version is not split at the LAST hyphen (strings.LastIndexByte(v, '-')): with several hyphens the revision is taken from the wrong place and e.g. 2.60-1-1 sorts before 2.60-2")
 		}
 	}
 	c.Check(nSl == 4 && len(CallSites(vc, P.FuncObj("strings.Cut"))) == 0, pkg+".VersionCompare#split-shape", vc.Pos(), "va[:i], va[i+1:], vb[:i], vb[i+1:]", fmt.Sprintf("expected the four slices of the two operands at their last hyphen, found %d (or a strings.Cut, which splits at the first hyphen)", nSl))
@@ -93,6 +109,17 @@ func runC33(c *Ctx) {
 			for _, lf := range leaves {
 				if s, ok := ConstString(lf.Val); ok && s == "0" {
 					zero++
+				}
+				// the revision handed back by a split helper: its own default
+				if hc, hi, isCall := CallResult(lf.Val); isCall {
+					if h := hc.Common().StaticCallee(); h != nil && h.Pkg == vc.Pkg && len(h.Blocks) > 0 {
+						for _, hl := range ReturnLeaves(h, hi) {
+							if s, ok := ConstString(hl.Val); ok && s == "0" {
+								zero++
+								break
+							}
+						}
+					}
 				}
 			}
 		}
